@@ -164,6 +164,134 @@ func runRoundTrip(c *wireCase, sf specFields) (fails []behav.Failure, harness st
 	return
 }
 
+// batchCase is the replay payload of the frame-condition check: the values are encoded
+// one after the other and only then decoded.
+type batchCase struct {
+	Batch []wireCase `json:"batch"`
+}
+
+// runBatch checks the frame condition of Marshal / MarshalInternalMessage: the byte
+// string an encoding call returned is a value — later encoding calls (of other values, or
+// of the same value again) must not change it. Every value is encoded (Marshal twice and,
+// for broadcast messages, MarshalInternalMessage twice), all byte slices are kept, and only
+// after the whole batch has been encoded is each of them decoded and compared.
+func runBatch(items []wireCase, sf specFields) (fails []behav.Failure, harness string) {
+	type enc struct {
+		want       interface{}
+		b1, b2     []byte // Serializer.Marshal, twice
+		i1, i2     []byte // MarshalInternalMessage, twice (broadcast messages)
+		snapB, snI []byte // copies taken immediately after the call
+	}
+	encs := make([]*enc, len(items))
+	for k := range items {
+		c := &items[k]
+		msg, err := BuildMessage(c.Type, c.Val, sf)
+		if err != nil {
+			return nil, "builder: " + err.Error()
+		}
+		e := &enc{want: canon(reflect.ValueOf(msg))}
+		var merr error
+		pv, _ := behav.Protect(func() {
+			if e.b1, merr = ser.Marshal(msg); merr != nil {
+				return
+			}
+			e.snapB = append([]byte(nil), e.b1...)
+			if e.b2, merr = ser.Marshal(msg); merr != nil {
+				return
+			}
+			if isBroadcast(c.Type) {
+				if e.i1, merr = pilosa.MarshalInternalMessage(msg, ser); merr != nil {
+					return
+				}
+				e.snI = append([]byte(nil), e.i1...)
+				e.i2, merr = pilosa.MarshalInternalMessage(msg, ser)
+			}
+		})
+		if pv != nil || merr != nil {
+			continue // reported by the single round trip
+		}
+		encs[k] = e
+	}
+	replayFrom := func(k int) batchCase {
+		end := k + 5
+		if end > len(items) {
+			end = len(items)
+		}
+		return batchCase{Batch: append([]wireCase(nil), items[k:end]...)}
+	}
+	for k, e := range encs {
+		if e == nil {
+			continue
+		}
+		c := &items[k]
+		fail := func(phase, symptom, field, detail string) {
+			fails = append(fails, behav.Failure{
+				Match:  map[string]string{"test": "batch", "type": c.Type, "phase": phase, "symptom": symptom, "field": field, "where": ""},
+				Detail: fmt.Sprintf("%s %s, encoded before %d other values and decoded afterwards: %s", c.Type, behav.JSON(c.Val), len(items)-k-1, detail),
+				Replay: replayFrom(k),
+			})
+		}
+		check := func(phase string, buf, snap []byte, fresh interface{}) {
+			if snap != nil && !bytes.Equal(buf, snap) {
+				fail(phase, "encoding_changed", "", "the byte slice the call returned was changed by a later encoding call")
+			}
+			uerr, pv, stack := unmarshalProtected(buf, fresh)
+			if pv != nil {
+				if !behav.PanicInCode(stack) {
+					harness = fmt.Sprintf("panic outside the code under test: %v\n%s", pv, stack)
+					return
+				}
+				fail(phase, "panic", "", fmt.Sprintf("decoding panicked: %v\n%s", pv, firstLines(stack, 16)))
+				return
+			}
+			if uerr != nil {
+				fail(phase, "error", "", "decoding failed: "+uerr.Error())
+				return
+			}
+			var diffs [][2]string
+			diffAll(e.want, canon(reflect.ValueOf(fresh)), c.Type, &diffs)
+			if len(diffs) > 0 {
+				fail(phase, "mismatch", fieldOfPath(diffs[0][0]), fmt.Sprintf("decoded value differs at %s: %s", diffs[0][0], diffs[0][1]))
+			}
+		}
+		check("marshal", e.b1, e.snapB, NewMessage(c.Type))
+		check("marshal", e.b2, nil, NewMessage(c.Type))
+		if !bytes.Equal(e.b1, e.b2) && !strings.Contains(c.Type, "ImportRoaringRequest") {
+			// (the views of an ImportRoaringRequest are a map: their order is free)
+			fail("marshal", "encoding_differs", "", "two Marshal calls on the same value returned different bytes")
+		}
+		if e.i1 != nil {
+			for n, ib := range [][]byte{e.i1, e.i2} {
+				if len(ib) == 0 {
+					fail("typebyte", "error", "", "empty frame")
+					continue
+				}
+				var fresh interface{}
+				if pv, _ := behav.Protect(func() { fresh = pilosa.VerifGetMessage(ib[0]) }); pv != nil || fresh == nil ||
+					reflect.TypeOf(fresh) != reflect.TypeOf(NewMessage(c.Type)) {
+					fail("typebyte", "mismatch", "type", fmt.Sprintf("after later encodings the frame's type byte %d gives %T", ib[0], fresh))
+					continue
+				}
+				snap := e.snI
+				if n == 1 {
+					snap = nil
+				}
+				if snap != nil && !bytes.Equal(ib, snap) {
+					fail("typebyte", "encoding_changed", "", "the frame MarshalInternalMessage returned was changed by a later encoding call")
+				}
+				check("typebyte", ib[1:], nil, fresh)
+			}
+			if !bytes.Equal(e.i1, e.i2) {
+				fail("typebyte", "encoding_differs", "", "two MarshalInternalMessage calls on the same value hold different bytes after both returned")
+			}
+		}
+		if harness != "" {
+			return
+		}
+	}
+	return
+}
+
 func asStale(err error, out *staleError) bool {
 	for err != nil {
 		if se, ok := err.(staleError); ok {
@@ -230,6 +358,18 @@ func TestC27RoundTrip(t *testing.T) {
 	}()
 	sf := specFields{}
 	if raw, ok := behav.LoadReplay(); ok {
+		var bc batchCase
+		if err := json.Unmarshal(raw, &bc); err == nil && len(bc.Batch) > 0 {
+			res.Evaluations = 1
+			fails, harness := runBatch(bc.Batch, sf)
+			if harness != "" {
+				res.SetInconclusive(harness)
+			}
+			for _, f := range fails {
+				res.Fail(f)
+			}
+			return
+		}
 		var c wireCase
 		if err := json.Unmarshal(raw, &c); err != nil {
 			t.Fatal(err)
@@ -279,6 +419,30 @@ func TestC27RoundTrip(t *testing.T) {
 		if i%(len(behs)/6+1) == 0 {
 			res.AddSample(b)
 		}
+		for _, f := range fails {
+			res.Fail(f)
+		}
+	}
+	// frame condition: encode the whole set (types interleaved by a seeded order), decode
+	// afterwards
+	if !corrupt {
+		items := make([]wireCase, 0, len(behs))
+		for _, b := range behs {
+			items = append(items, wireCase{Type: b[0].Str("type"), Val: b[0]["val"]})
+		}
+		seed := behav.Seed()
+		sort.SliceStable(items, func(i, j int) bool {
+			return behav.Hash64(fmt.Sprintf("%d|%s", seed, behav.JSON(items[i]))) < behav.Hash64(fmt.Sprintf("%d|%s", seed, behav.JSON(items[j])))
+		})
+		fails, harness := runBatch(items, sf)
+		if harness != "" {
+			res.SetInconclusive(harness)
+			return
+		}
+		for range items {
+			res.CountEval()
+		}
+		res.Cover("roundtrip/batch")
 		for _, f := range fails {
 			res.Fail(f)
 		}
